@@ -33,23 +33,12 @@ Definition to_mchange (pc : pchange) : mchange :=
            end).
 End ToChange.
 
-(** [PlanChanges] without its last step: the planned changes before the PRAGMA bracket *)
-Definition core_changes (p : plan) : list pchange :=
-  match p_changes p with
-  | first :: rest =>
-      match pc_cmd first, rev rest with
-      | SPragmaFK false, last :: mid_rev =>
-          match pc_cmd last with
-          | SPragmaFK true => rev mid_rev
-          | _ => p_changes p
-          end
-      | _, _ => p_changes p
-      end
-  | [] => []
-  end.
-
 Definition pc_has_reverse (pc : pchange) : bool :=
   match pc_reverse pc with [] => false | _ :: _ => true end.
+
+(** the two changes [PlanChanges] wraps the plan in when [skipFKs] is set *)
+Definition pragma_off : pchange := mkPC (SPragmaFK false) [] CmFKOff.
+Definition pragma_on : pchange := mkPC (SPragmaFK true) [] CmFKOn.
 
 (** ** the arms whose reverse is an exact inverse by name
 
